@@ -8,14 +8,18 @@ usage: seeded.py confirm <name> --from /tmp/seeded-out/<dir> --prop Cxx [--check
   4. apply the patch to /repo, run the listed checks (default: the property's own), revert
   5. write /verif/seeded/<name>/{patch.diff, demo/, meta.json}
 """
-import json, os, shutil, subprocess, sys, time
+import json, os, re, shutil, subprocess, sys, time
 
-def sh(cmd, cwd=None, timeout=1800):
-    r = subprocess.run(cmd, shell=True, capture_output=True, text=True, cwd=cwd, timeout=timeout)
-    return r.returncode, r.stdout + r.stderr
+def sh(cmd, cwd=None, timeout=1500):
+    # everything is bounded: a seeded change may make the suite or the demo hang
+    try:
+        r = subprocess.run(f"timeout -k 5 {timeout} bash -c {json.dumps(cmd)}", shell=True, capture_output=True, text=True, cwd=cwd, timeout=timeout + 30)
+        return r.returncode, r.stdout + r.stderr
+    except subprocess.TimeoutExpired:
+        return 124, "TIMEOUT"
 
 def suite(wt):
-    rc, out = sh("cargo test --workspace --offline --no-fail-fast 2>&1", cwd=wt)
+    rc, out = sh("cargo test --workspace --offline --no-fail-fast 2>&1", cwd=wt, timeout=400)
     failed = sorted(set(l.split()[1] for l in out.splitlines() if l.startswith("test ") and l.rstrip().endswith("FAILED")))
     return failed, out
 
@@ -58,7 +62,7 @@ def main():
                 shutil.copy(os.path.join(root, f), dst); copied.append(os.path.relpath(dst, wt))
         result["demo_files"] = copied
         # without the change: demo passes
-        rc0, out0 = sh(demo_cmd.replace("/tmp/wt-" + prop, wt), cwd=wt)
+        rc0, out0 = sh(re.sub(r"/tmp/wt2?-C\d+", wt, demo_cmd), cwd=wt)
         ran.append({"step": "demo without change", "cmd": demo_cmd, "exit": rc0})
         rc, out = sh(f"git apply {patch}", cwd=wt)
         assert rc == 0, "patch does not apply: " + out
@@ -67,7 +71,7 @@ def main():
         demo_tests = set()
         extra = [f for f in failed if f not in BASE_FAIL]
         ran.append({"step": "suite with change (demo included)", "failed_tests": failed})
-        rc1, out1 = sh(demo_cmd.replace("/tmp/wt-" + prop, wt), cwd=wt)
+        rc1, out1 = sh(re.sub(r"/tmp/wt2?-C\d+", wt, demo_cmd), cwd=wt)
         ran.append({"step": "demo with change", "cmd": demo_cmd, "exit": rc1})
         result["demo_passes_without_change"] = (rc0 == 0)
         result["demo_fails_with_change"] = (rc1 != 0)
